@@ -360,6 +360,33 @@ def r02_3(ctx: Ctx, rep: Report) -> None:
             rep.ok(f"{f.qualname}: explicit raises", "no lookup-type exception", nontrivial=False, where=where(f))
 
 
+def members_not_rebuilt_mid_loop(ctx: Ctx, rep: Report, rid: str = "R02.14") -> None:
+    """A method that converts its members one by one does not rebuild the member list in the middle of that loop: a call,
+    inside `for item in self._items`, of a method of the same object whose write set has the member list (the port
+    split re-assigns `self.items`, and the items setter stamps the new platform on every entry WITHOUT converting it)
+    leaves the entries not yet visited marked as converted while their fields still speak the old platform - the second
+    entry of a block is then re-read as NX-OS text from IOS spellings (`object-group G`, `eq msrpc`) and refused."""
+    rep.rule(rid)
+    n = 0
+    hits = 0
+    for cls in ctx.prog.classes.values():
+        for f in list(cls.methods.values()) + list(cls.setters.values()):
+            for lp in [x for x in own_nodes(f.node) if isinstance(x, ast.For) and isinstance(x.iter, ast.Attribute) and src(x.iter.value) == "self" and x.iter.attr.lstrip("_") == "items"]:
+                n += 1
+                for c in [y for b in lp.body for y in ast.walk(b) if isinstance(y, ast.Call) and isinstance(y.func, ast.Attribute) and src(y.func.value) == "self"]:
+                    g = cls.lookup_method(c.func.attr)
+                    if g is None or g is f:
+                        continue
+                    w = {a.lstrip("_") for a, _k in ctx.effects.self_writes(g, cls)}
+                    if "items" in w:
+                        hits += 1
+                        rep.instance()
+                        rep.violation(f.qualname, f"for {snippet(lp.target, 10)} in {snippet(lp.iter, 20)}: ... {snippet(c, 40)}", f"`{snippet(c, 30)}` re-assigns the member list while the loop over it is converting the members one by one: the members not yet visited are replaced by entries that carry the new platform without having been converted, and are then re-read from text in the old platform's spelling", where(f, c), inp="Acl('ip access-list extended A\\n remark == web\\n permit ip object-group G any', group_by='== ').platform = 'nxos'  -> ValueError, ACL half converted")
+    rep.instance()
+    if hits == 0:
+        rep.ok("package", f"{n} loops over the object's own member list: none calls a method that re-assigns the list", nontrivial=False)
+
+
 def ios_members_unnumbered(ctx: Ctx, rep: Report, rid: str = "R02.10") -> None:
     """Members of an IOS object-group carry no sequence number (docs/objects.rst: "sequence ... only for platform nxos";
     AddressAg.line writes the number whenever it is non-zero): every normal path of AddressAg's platform setter that ends
@@ -436,6 +463,7 @@ def run(ctx: Ctx, rep: Report, tier: str) -> None:
     derived_attributes_refreshed(ctx, sub)
     rep.absorb(sub, "R02.12")
     r02_3(ctx, rep)
+    members_not_rebuilt_mid_loop(ctx, rep)
     # R02.4 writer keywords belong to the target platform's reader; R02.6 re-typing tests
     from .c01 import classification_guards
     from .c06 import r06_1
